@@ -85,6 +85,8 @@ class SymExec:
                 return v
             if isinstance(v, tuple) and v[0] == "const":
                 return {"c": v[1]}
+            if v == S("len"):
+                return {"len": 1}
             return None
         if isinstance(e, ast.BinOp):
             if isinstance(e.op, ast.Add):
@@ -149,6 +151,11 @@ class SymExec:
             return ("byte", "?", unparse(e.slice))
         if isinstance(e, ast.BinOp) and self.tail_len is not None and unparse(e) in (f"{self.len_name or 'length'} % 4", f"{self.len_name or 'length'} & 3"):
             return C(self.tail_len)
+        if isinstance(e, ast.BinOp) and self.tail_len is not None and isinstance(e.op, (ast.Sub, ast.Add)):
+            # length - (offset of the tail)  ==  length % 4
+            l = self.lin(e)
+            if l is not None and {k: v for k, v in l.items() if v and k != "c"} == {"len": 1, "tail": -1}:
+                return C(self.tail_len + l.get("c", 0))
         if isinstance(e, ast.BinOp):
             a, b = self.ev(e.left), self.ev(e.right)
             op = {ast.BitXor: "xor", ast.Add: "add", ast.Mult: "mul", ast.BitAnd: "and", ast.BitOr: "or", ast.LShift: "shl", ast.RShift: "shr", ast.Mod: "mod"}.get(type(e.op))
@@ -209,16 +216,25 @@ class SymExec:
         raise AnalysisError(f"murmur2: unsupported expression {unparse(e)[:50]}")
 
     def run(self, stmts):
-        for s in stmts:
+        stmts = list(stmts)
+        while stmts:
+            s = stmts.pop(0)
             if self.ret is not None:
                 return
+            if (isinstance(s, ast.Assign) and len(s.targets) == 1 and isinstance(s.targets[0], ast.Tuple) and isinstance(s.value, ast.Tuple)
+                    and len(s.targets[0].elts) == len(s.value.elts) and all(isinstance(t, ast.Name) for t in s.targets[0].elts)):
+                # a, b = x, y : simultaneous assignment; sequential when no right-hand side reads a target
+                tg = {t.id for t in s.targets[0].elts}
+                if not any(isinstance(n, ast.Name) and n.id in tg for v in s.value.elts for n in ast.walk(v)):
+                    stmts[0:0] = [ast.Assign(targets=[t], value=v) for t, v in zip(s.targets[0].elts, s.value.elts)]
+                    continue
             if isinstance(s, ast.Assign) and len(s.targets) == 1 and isinstance(s.targets[0], ast.Name):
                 n = s.targets[0].id
                 if n in self.pinned:
                     self.env[n] = self.pinned[n]
                     continue
                 l = self.lin(s.value)
-                if l is not None and any(k != "c" for k in l):
+                if l is not None and any(k != "c" for k in l) and not l.get("len"):
                     self.env[n] = l
                 else:
                     self.env[n] = self.ev(s.value)
